@@ -1,22 +1,199 @@
 (** * C17 — Tetrahedral mesh factories partition the shape with valid potentials.
     Statements only; proofs are in Proofs/TetMesh*.v and Checker/TetMesh.v, the model in
-    Model/TetMesh.v, the literal tables in Gen/TetTables.v (regenerated from the source). *)
+    Model/TetMesh.v, the literal tables in Gen/TetTables.v (regenerated from the source on
+    every run: a changed table row re-opens the obligations below). *)
 From Coq Require Import List ZArith Reals Lra.
-From D3 Require Import Base.Ops Base.Vec Model.TetSym Gen.TetTables Model.TetMesh Checker.TetMesh.
+From D3 Require Import Base.Ops Base.Vec Model.TetSym Gen.TetTables Model.TetMesh Model.TetMeshProc Checker.TetMesh
+                       Proofs.TetMeshBase Proofs.TetMeshBox Proofs.TetMeshCyl
+                       Proofs.TetMeshIcoKey Proofs.TetMeshIcoPure Proofs.TetMeshIco Proofs.TetMeshHelpers.
 Import ListNotations.
 Local Open Scope R_scope.
 
-(** The per-run certificate checker is sound. *)
+(** ** make_tetrahedral_box: exact tiling, ALL sizes > 0, every topology class *)
+Theorem C17_box_exact_tiling : forall sx sy sz, 0 < sx -> 0 < sy -> 0 < sz ->
+  let m := box_mesh (O := ROps) sx sy sz in
+  let hx := sx / 2 in let hy := sy / 2 in let hz := sz / 2 in
+  (* every element refers to existing vertices and has positive oriented volume *)
+  tets_oriented 1 (mverts m) (mtets m) /\
+  (* the volumes add up to the volume of the box (sum of 6 * volume = 6 * sx * sy * sz) *)
+  sum_vol6 1 (mverts m) (mtets m) = Some (6 * (sx * sy * sz)) /\
+  (* all vertices, hence all elements (mesh_elements_in_box), lie in the box *)
+  verts_in_box hx hy hz (mverts m) /\
+  (* no point lies in the interior of two elements *)
+  interiors_disjoint (mverts m) (mtets m) /\
+  (* potential = distance to the boundary: 0 on the corners, the inradius on the medial vertices *)
+  Forall2 (fun p q => q = box_depth hx hy hz p /\ (q = 0 \/ q = Rmin (Rmin hx hy) hz)) (mverts m) (mpots m).
+Proof. exact box_mesh_exact_tiling. Qed.
+
+(** ** make_tetrahedral_cube: the same for the 12-element table (orientation sign -1) *)
+Theorem C17_cube_exact_tiling : forall size, 0 < size ->
+  let m := cube_mesh (O := ROps) size in
+  let h := size / 2 in
+  tets_oriented (-1) (mverts m) (mtets m) /\
+  sum_vol6 (-1) (mverts m) (mtets m) = Some (6 * (size * size * size)) /\
+  verts_in_box h h h (mverts m) /\
+  interiors_disjoint (mverts m) (mtets m) /\
+  Forall2 (fun p q => q = box_depth h h h p /\ (q = 0 \/ q = h)) (mverts m) (mpots m).
+Proof. exact cube_mesh_exact_tiling. Qed.
+
+(** closed elements of a mesh whose vertices are in the box are in the box *)
+Theorem C17_elements_in_box : forall hx hy hz vs t a b c d p,
+  verts_in_box hx hy hz vs -> tet_points vs t = Some (a, b, c, d) ->
+  tet_closed a b c d p -> in_box hx hy hz p.
+Proof. exact mesh_elements_in_box. Qed.
+
+(** ** make_tetrahedral_cylinder, any number of rim vertices: orientation and volume.
+    [rim] are the points (x_i, y_i) of the circle in loop order; the hypothesis is that every
+    sector (i, j) of the loop turns counter-clockwise. *)
+Theorem C17_cylinder_volumes : forall radius len rim,
+  0 < radius -> 0 < len ->
+  ccw_pairs rim (sector_pairs (length rim)) ->
+  let m := cyl_mesh_rim (O := ROps) radius len rim in
+  tets_oriented 1 (mverts m) (mtets m) /\
+  (* = 6 * len * area of the polygon spanned by the rim points *)
+  sum_vol6 1 (mverts m) (mtets m) = Some (3 * len * pairs_sum rim (sector_pairs (length rim))).
+Proof. exact cyl_mesh_rim_volumes. Qed.
+
+(** class boundaries (long / medium / short) *)
+Theorem C17_cylinder_classes : forall radius len,
+  let tz := len / 2 in
+  let tol := cyl_tol radius len in
+  0 < tol /\
+  match cyl_classify (O := ROps) radius len with
+  | Long => tol < tz - radius
+  | Short => tz - radius <= tol /\ tol < radius - tz
+  | Medium => tz - radius <= tol /\ radius - tz <= tol
+  end.
+Proof. exact cyl_classify_cases. Qed.
+
+(** containment and potentials, rim points on the circle *)
+Theorem C17_cylinder_potentials : forall radius len rim,
+  0 < radius -> 0 < len -> on_circle radius rim ->
+  let m := cyl_mesh_rim (O := ROps) radius len rim in
+  Forall (in_cyl radius (len / 2)) (mverts m) /\
+  (* potential is 0 or the medial value; it equals the distance to the boundary (up to the
+     class tolerance in the medium class) *)
+  Forall2 (fun p q => (q = 0 \/ q = cyl_medial_pot radius len) /\
+                      Rabs (q - cyl_depth radius (len / 2) p) <= cyl_slack radius len)
+          (mverts m) (mpots m) /\
+  (* the medial value is the inradius (up to the class tolerance in the medium class) *)
+  Rabs (cyl_medial_pot radius len - Rmin radius (len / 2)) <= cyl_slack radius len.
+Proof. exact cyl_mesh_rim_potentials. Qed.
+
+(** ** make_triangular_icosphere (sphere / ellipsoid), EVERY subdivision order: the triangle
+    list is a closed, consistently oriented surface; the midpoint cache is empty after each pass
+    and the vertex count is the size of the preallocated array *)
+Theorem C17_icosphere_closed : forall order,
+  let ts := fst (ico_topology order) in
+  let st := snd (ico_topology order) in
+  NoDup (dedges_of ts) /\
+  (forall a b, In (a, b) (dedges_of ts) -> In (b, a) (dedges_of ts)) /\
+  (forall a b c, In (a, b, c) ts -> a <> b /\ b <> c /\ c <> a /\
+                                    (0 <= a < ic_next st /\ 0 <= b < ic_next st /\ 0 <= c < ic_next st)%Z) /\
+  ic_cache st = [] /\
+  ic_next st = (10 * 4 ^ Z.of_nat order + 2)%Z /\
+  length ts = (20 * 4 ^ order)%nat.
+Proof. exact ico_topology_closed. Qed.
+
+(** the cache key (Cantor pairing) cannot alias two different edges *)
+Theorem C17_cache_key_injective : forall a b c d,
+  (0 <= a -> 0 <= b -> 0 <= c -> 0 <= d ->
+   cantor_key a b = cantor_key c d -> (a = c /\ b = d) \/ (a = d /\ b = c))%Z.
+Proof. intros a b c d Ha Hb Hc Hd H. apply okey_cases. apply cantor_key_inj; assumption. Qed.
+
+(** one subdivision pass preserves closedness for ANY good surface (not only the icosahedron) *)
+Theorem C17_subdivision_preserves : forall n ts created,
+  good n ts ->
+  let res := subdivide ts (IcoState [] n created) in
+  good (ic_next (snd res)) (fst res) /\ ic_cache (snd res) = [] /\
+  (2 * (ic_next (snd res) - n) = 3 * Z.of_nat (length ts))%Z /\
+  length (fst res) = (4 * length ts)%nat.
+Proof. exact subdivide_pass. Qed.
+
+(** ** the helpers of _mesh_processing.py equal their definitions *)
+Theorem C17_helper_volumes : forall a b c d : V3 R,
+  mesh_volume (O := ROps) a b c d = Rabs (vol6 (O := ROps) a b c d) / 6 /\
+  0 <= mesh_volume (O := ROps) a b c d.
+Proof. exact mesh_volume_spec. Qed.
+
+Theorem C17_helper_volumes_sum : forall sigma vs ts total,
+  sigma = 1 \/ sigma = -1 ->
+  tets_oriented sigma vs ts -> sum_vol6 sigma vs ts = Some total ->
+  length (mesh_tetpts vs ts) = length ts /\
+  sumR (mesh_volumes (O := ROps) (mesh_tetpts vs ts)) = total / 6.
+Proof. exact mesh_volumes_sum_oriented. Qed.
+
+Theorem C17_helper_box_volume : forall sx sy sz, 0 < sx -> 0 < sy -> 0 < sz ->
+  let m := box_mesh (O := ROps) sx sy sz in
+  sumR (mesh_volumes (O := ROps) (mesh_tetpts (mverts m) (mtets m))) = sx * sy * sz.
+Proof. exact box_mesh_helper_volume. Qed.
+
+Theorem C17_helper_aabbs : forall a b c d : V3 R,
+  let '(bx, by_, bz) := tet_aabb (O := ROps) (a, b, c, d) in
+  (forall p, p = a \/ p = b \/ p = c \/ p = d ->
+             in_interval bx (vx p) /\ in_interval by_ (vy p) /\ in_interval bz (vz p)) /\
+  attained (fst bx) (vx a) (vx b) (vx c) (vx d) /\ attained (snd bx) (vx a) (vx b) (vx c) (vx d) /\
+  attained (fst by_) (vy a) (vy b) (vy c) (vy d) /\ attained (snd by_) (vy a) (vy b) (vy c) (vy d) /\
+  attained (fst bz) (vz a) (vz b) (vz c) (vz d) /\ attained (snd bz) (vz a) (vz b) (vz c) (vz d).
+Proof. exact tet_aabb_tight. Qed.
+
+Theorem C17_helper_com : forall tps : list (@tetpts R),
+  let vols := mesh_volumes (O := ROps) tps in
+  sumR vols <> 0 ->
+  vscale (O := ROps) (sumR vols) (mesh_com (O := ROps) tps)
+  = wsum (combine vols (map (centroid (O := ROps)) tps)).
+Proof. exact mesh_com_spec. Qed.
+
+(** ** the per-run certificate checker is sound *)
 Theorem C17_mesh_cert_sound : forall sigma vs ts total s,
   0 < s -> mesh_cert sigma vs ts total = true ->
   Forall (fun t => exists v, tet_vol6 (O := ROps) (map (rpoint s) vs) t = Some v /\ 0 < IZR sigma * v) ts /\
   sum_vol6 (IZR sigma) (map (rpoint s) vs) ts = Some (s * s * s * IZR total).
 Proof. exact mesh_cert_sound. Qed.
 
+(** ** non-vacuity *)
+Example C17_box_nonvacuous :
+  length (mtets (box_core (O := ROps) (V 1 2 3) (V 0 1 2) true false false 1)) = 24%nat /\
+  length (mtets (cube_mesh (O := ROps) 1)) = 12%nat.
+Proof. split; vm_compute; reflexivity. Qed.
+
+Example C17_cylinder_nonvacuous :
+  let rim := [(1, 0); (0, 1); (-1, 0); (0, -1)] in
+  ccw_pairs rim (sector_pairs (length rim)) /\ on_circle 1 rim /\
+  length (cyl_elements TetTables.cyl_long (length rim)) = 20%nat.
+Proof.
+  split; [|split].
+  - repeat constructor; cbn [fst snd]; eexists; eexists; (split; [reflexivity|split; [reflexivity|]]);
+      unfold cross2; cbn [fst snd]; lra.
+  - repeat constructor; cbn [fst snd]; lra.
+  - reflexivity.
+Qed.
+
+Example C17_icosphere_nonvacuous :
+  good 12 TetTables.ico_tris /\ length (fst (ico_topology 2)) = 320%nat /\ ic_next (snd (ico_topology 2)) = 162%Z.
+Proof. split; [exact ico_base_good|split; vm_compute; reflexivity]. Qed.
+
 Example C17_mesh_cert_nonvacuous :
   mesh_cert 1 [(0, 0, 0); (1, 0, 0); (0, 1, 0); (0, 0, 1)]%Z [(0, 1, 2, 3)%Z] 1 = true /\
   mesh_cert 1 [(0, 0, 0); (1, 0, 0); (0, 1, 0); (0, 0, 1)]%Z [(0, 2, 1, 3)%Z] (-1) = false.
 Proof. split; reflexivity. Qed.
 
+Print Assumptions C17_box_exact_tiling.
+Print Assumptions C17_cube_exact_tiling.
+Print Assumptions C17_elements_in_box.
+Print Assumptions C17_cylinder_volumes.
+Print Assumptions C17_cylinder_classes.
+Print Assumptions C17_cylinder_potentials.
+Print Assumptions C17_icosphere_closed.
+Print Assumptions C17_cache_key_injective.
+Print Assumptions C17_subdivision_preserves.
+Print Assumptions C17_helper_volumes.
+Print Assumptions C17_helper_volumes_sum.
+Print Assumptions C17_helper_box_volume.
+Print Assumptions C17_helper_aabbs.
+Print Assumptions C17_helper_com.
 Print Assumptions C17_mesh_cert_sound.
+Print Assumptions C17_box_nonvacuous.
+Print Assumptions C17_cylinder_nonvacuous.
+Print Assumptions C17_icosphere_nonvacuous.
 Print Assumptions C17_mesh_cert_nonvacuous.
